@@ -262,9 +262,27 @@ static int do_units(const char *in, const char *outname) {
       pos = nxt + 1;
     }
     part.push_back(line.substr(pos));
-    const double factor = atof(part[2].c_str()) * std::pow(10., atof(part[3].c_str()));
-    const double r = UnitConverter::convert(1., part[0], part[1]);
-    double dev = std::abs(r / factor - 1.) * 1.e12;
+    double dev;
+    if (part[0] == "P") {
+      // P|compound|part|exponent|part|exponent...: SI value of the compound vs the product of its parts
+      double prod = 1.;
+      for (size_t k = 2; k + 1 < part.size(); k += 2)
+        prod *= std::pow(UnitConverter::get_unit(part[k]) * 1., atof(part[k + 1].c_str()));
+      dev = std::abs((UnitConverter::get_unit(part[1]) * 1.) / prod - 1.) * 1.e12;
+      part[0] = part[1];
+      part[1] = "product of parts";
+    } else if (part[0] == "R") {
+      // R|unit|mantissa|exponent: to SI and back
+      const double v = atof(part[2].c_str()) * std::pow(10., atof(part[3].c_str()));
+      const double si = UnitConverter::get_unit(part[1]) * v;
+      dev = std::abs((si / UnitConverter::get_unit(part[1])) / v - 1.) * 1.e12;
+      part[0] = part[1];
+      part[1] = "SI and back";
+    } else {
+      const double factor = atof(part[2].c_str()) * std::pow(10., atof(part[3].c_str()));
+      const double r = UnitConverter::convert(1., part[0], part[1]);
+      dev = std::abs(r / factor - 1.) * 1.e12;
+    }
     if (!(dev < 1.e9))
       dev = 1.e9;
     fprintf(out, "{\"e\":\"unit\",\"a\":\"%s\",\"b\":\"%s\",\"dev\":%ld}\n", part[0].c_str(), part[1].c_str(),
